@@ -227,6 +227,13 @@ def gen_cases(tier, seed):
         if k % cfg['mut_every'] == 0:
             for j, (rule, m) in enumerate(D.mutations(d, rng)):
                 cases.append({'id': f'mut{k}.{j}.{rule}', 'stream': 'mut', 'feature': False, 'def': m, 'rule': rule})
+                if j % 5 == k % 5 and not rule.startswith('R1-'):
+                    # the same ill-formed definition with a legacy (parsed and ignored) entry, written without the
+                    # optional separator, somewhere among the sections
+                    m2 = list(m)
+                    m2.insert(rng.randrange(len(m2) + 1), ('legacy', rng.choice(['state', 'action', 'callbacks']),
+                                                          rng.choice(['ident', 'brace']), 'nocomma'))
+                    cases.append({'id': f'mutleg{k}.{j}.{rule}', 'stream': 'mut', 'feature': False, 'def': m2, 'rule': rule})
     return cases
 
 def prepare(tier, seed):
